@@ -549,6 +549,10 @@ encodeResponse:
         *alertDescription = (unsigned char)ssl->err;
         *alertLevel = SSL_ALERT_LEVEL_FATAL;
         rc = tls13EncodeAlert(ssl, ssl->err, &tmp, requiredLen);
+        /* This is always a fatal alert due to an error in message parsing
+           or decryption, so flag this session as error (as the TLS 1.2
+           decoder does): no further records are decoded or encoded. */
+        ssl->flags |= SSL_FLAGS_ERROR;
     }
     else
     {
